@@ -149,7 +149,9 @@ def generate(config="default", repo=REPO, outdir=None):
 def _prune_cache(keep, maxn=4):
     try:
         ents = [os.path.join(CACHE, d) for d in os.listdir(CACHE)]
-        ents = [e for e in ents if os.path.isdir(e) and e != keep]
+        # never touch a directory another process may still be writing to / reading from (parallel mutant runs)
+        now = time.time()
+        ents = [e for e in ents if os.path.isdir(e) and e != keep and now - os.path.getmtime(e) > 1800]
         ents.sort(key=os.path.getmtime)
         while len(ents) >= maxn:
             shutil.rmtree(ents.pop(0), ignore_errors=True)
